@@ -10,6 +10,7 @@ Observed (numbers produced by the package, structure and verdict by the trace sp
 import contextlib
 import gc
 import io
+import os
 import json
 import math
 import random
@@ -167,7 +168,41 @@ def part_k0_events(eid0, tier, rng):
     return evs
 
 
-def partition_section(rep, tier, seed, rng):
+def isolated_excludes(reqs):
+    """part_exclude_event for every request, in forked children: exclude_dofs_matrix edits the private index arrays and
+    _shape of a scipy COO matrix, so an index slip there corrupts memory instead of raising.  A child that dies is an
+    observation (the call killed the interpreter); the parent goes on with the next request in a new child."""
+    events, crashes, i = [None] * len(reqs), [], 0
+    while i < len(reqs) and len(crashes) < 4:
+        r, w = os.pipe()
+        pid = os.fork()
+        if pid == 0:
+            try:
+                os.close(r)
+                with os.fdopen(w, "w") as f:
+                    for k in range(i, len(reqs)):
+                        f.write(json.dumps(part_exclude_event(k, reqs[k]["K"], reqs[k]["xs"])) + "\n")
+                        f.flush()
+            finally:
+                os._exit(0)
+        os.close(w)
+        with os.fdopen(r) as f:
+            for line in f:
+                if i < len(reqs) and line.endswith("\n"):
+                    try:
+                        events[i] = json.loads(line)
+                    except ValueError:
+                        break
+                    i += 1
+        _, status = os.waitpid(pid, 0)
+        if i < len(reqs):
+            crashes.append((i, status))
+            i += 1
+    return events, crashes
+
+
+def partition_prepare(rep, tier, seed, rng):
+    """TLC on the bounded model, then the replays of exclude_dofs_matrix (isolated).  Runs before any thread starts."""
     inv = ["ExcludeIsSubmatrix", "SlabsRight", "KkkIsPrescribedBlock", "InsertThenDelete", "DeleteThenInsert",
            "InsertPlacesValues", "ScaleInPlace", "ReducedSystem"]
     cfg = ("SPECIFICATION EmitSpec\nCONSTANTS Tier = \"%s\"\nDev = {}\n%sCHECK_DEADLOCK FALSE\n"
@@ -176,8 +211,8 @@ def partition_section(rep, tier, seed, rng):
     rep.add_tlc("MC_ShellPartition", mc)
     if not mc.ok:
         rep.machinery("TLC on MC_ShellPartition failed: " + mc.errors() + mc.out[-1500:])
-        return
-    seen, events = set(), []
+        return None
+    seen, xreq, freq = set(), [], []
     reqs = printed_values(mc.out, "REQ")
     refreeze()
     for v in reqs:
@@ -187,38 +222,54 @@ def partition_section(rep, tier, seed, rng):
             continue
         seen.add(key)
         if r["op"] == "Exclude":
-            events.append(part_exclude_event(len(events), [[float(x) for x in row] for row in r["K"]], r["xs"]))
+            xreq.append(dict(K=[[float(x) for x in row] for row in r["K"]], xs=list(r["xs"])))
         else:
-            e = part_fullc_event(len(events), r["n"], r["xs"], [F(c) for c in r["cks"]], F(r["inc"]),
-                                 [F(x) for x in r["vec"]])
-            if e is not None:
-                events.append(e)
-    n_lattice = len(events)
-    if n_lattice < 100:
-        rep.machinery("only %d partition requests parsed from TLC output" % n_lattice)
-    # direction B: seeded dyadic matrices / vectors, unsorted prescribed lists, through the API flags too
+            freq.append(r)
+    n_xlat = len(xreq)
     nrand = 40 if tier == "quick" else 400
-    for _ in range(nrand):
+    for _ in range(nrand // 2):
         n = rng.choice([3, 5, 6, 8, 9, 12, 13])
         xs = rng.sample([0, 1, 2], rng.randint(0, 3))
-        if rng.random() < 0.5:
-            K = [[float(dyf(rng, -8, 8)) if rng.random() < 0.7 else 0.0 for _ in range(n)] for _ in range(n)]
-            events.append(part_exclude_event(len(events), K, xs))
-        else:
-            cks = [dyf(rng, -4, 4, 3) for _ in xs]
-            inc = rng.choice([F(1, 2), F(3, 4), F(1), F(2), F(-1, 4)])
-            full = rng.random() < 0.3
-            vec = [dyf(rng, -16, 16, 4) for _ in range(n if full else n - len(xs))]
-            e = part_fullc_event(len(events), n, xs, cks, inc, vec)
-            if e is not None:
-                e["id"] = len(events)
-                events.append(e)
+        xreq.append(dict(K=[[float(dyf(rng, -8, 8)) if rng.random() < 0.7 else 0.0 for _ in range(n)] for _ in range(n)], xs=xs))
+    xev, crashes = isolated_excludes(xreq)
+    for i, status in crashes:
+        small = dict(n=len(xreq[i]["K"]), xs=xreq[i]["xs"], K=xreq[i]["K"])
+        rep.violation("exclude_dofs_matrix(k %dx%d, excluded_dofs=%s) did not return: the interpreter died (wait status %d: "
+                      "memory corrupted through the COO index arrays?)" % (small["n"], small["n"], small["xs"], status),
+                      dict(section="partition", crashed_call=small))
+    return dict(xev=[e for e in xev if e is not None], freq=freq, n_xlat=n_xlat, nrand=nrand, crashed=bool(crashes))
+
+
+def partition_section(rep, tier, seed, rng, prep=None):
+    if prep is None:
+        return
+    events = list(prep["xev"])
+    nrand = prep["nrand"]
+    for r in prep["freq"]:
+        e = part_fullc_event(len(events), r["n"], r["xs"], [F(c) for c in r["cks"]], F(r["inc"]), [F(x) for x in r["vec"]])
+        if e is not None:
+            events.append(e)
+    n_lattice = len(events) - nrand // 2
+    if n_lattice < 100:
+        rep.machinery("only %d partition requests parsed from TLC output" % n_lattice)
+    # direction B: seeded dyadic vectors, unsorted prescribed lists (the seeded matrices were replayed in partition_prepare)
+    for _ in range(nrand - nrand // 2):
+        n = rng.choice([3, 6, 8, 9, 12, 13])
+        xs = rng.sample([0, 1, 2], rng.randint(0, 3))
+        cks = [dyf(rng, -4, 4, 3) for _ in xs]
+        inc = rng.choice([F(1, 2), F(3, 4), F(1), F(2), F(-1, 4)])
+        full = rng.random() < 0.3
+        vec = [dyf(rng, -16, 16, 4) for _ in range(n if full else n - len(xs))]
+        e = part_fullc_event(len(events), n, xs, cks, inc, vec)
+        if e is not None:
+            events.append(e)
     events += part_k0_events(len(events), tier, rng)
     for k, e in enumerate(events):
         e["id"] = k
-    ops = {(e["kind"], len(e.get("cu", [])) == e.get("size")) for e in events[:n_lattice]}
+    ops = {(e["kind"], len(e.get("cu", [])) == e.get("size")) for e in events if e.get("via", "attribute") == "attribute"}
     if ops != {("exclude", False), ("fullc", False), ("fullc", True)}:
         rep.machinery("vacuity: the partition model did not produce Exclude, Insert and Scale transitions: %s" % ops)
+    n_k0 = sum(1 for e in events if e.get("via", "attribute") != "attribute")
     add_selftests(events, [("exclude", lambda e: e["n"] > 4 and len(e["xs"]) == 1), ("fullc", lambda e: e["size"] >= 6)])
     verdicts, results, problems = validate_trace("c18-trp", "Trace_ShellPartition",
                                                  "CONSTANTS Tier = \"%s\"\nDev = {}\n" % tier, events, timeout=1500,
@@ -229,7 +280,8 @@ def partition_section(rep, tier, seed, rng):
         rep.machinery(p)
     if check_selftests(rep, events, verdicts, "Trace_ShellPartition") != 2:
         rep.machinery("binding self-test of Trace_ShellPartition did not run")
-    for e in events:
+    # most readable witness first (Report.known keeps the first one per deviation)
+    for e in sorted(events, key=lambda e: (not (e["kind"] == "exclude" and e["n"] == 4 and e["xs"] == [0]), e["id"])):
         v = verdicts.get(e["id"])
         if e.get("selftest"):
             continue
@@ -238,15 +290,17 @@ def partition_section(rep, tier, seed, rng):
             continue
         small = {k: e[k] for k in e if k not in ("K", "obs")}
         if v[0].startswith("kf:"):
-            rep.known(v[0][3:], "exclude_dofs_matrix(k %dx%d, excluded_dofs=%s, return_kkk=True): parts differing from the "
-                      "documented partition: %s" % (e["n"], e["n"], e["xs"], sorted(v[1])))
+            rep.known(v[0][3:], "exclude_dofs_matrix(k=%s, return_kkk=True) with excluded_dofs=%s returns kkk=%s, the corner of the "
+                      "amplitudes that are NOT prescribed (documented: the block of the prescribed ones)"
+                      % ([[undy(x) for x in row] for row in e["K"]] if e["n"] <= 4 else "<%dx%d>" % (e["n"], e["n"]), e["xs"],
+                         [[undy(x) for x in row] for row in e["obs"]["kkk"]]))
         else:
             rep.violation("partition book-keeping: %s with %s disagrees with the specification at %s"
                           % (e["kind"], small, sorted(v[1]) if isinstance(v[1], list) else v[1]),
                           dict(section="partition", event=e))
     rep.cov["traces_validated_against_impl"] += len(events)
     rep.cov["evaluations"] += len(events)
-    rep.cov["partition"] = dict(lattice_requests_replayed=n_lattice, random=nrand, real_k0=len(events) - n_lattice - nrand)
+    rep.cov["partition"] = dict(lattice_requests_replayed=n_lattice, random=nrand, real_k0=n_k0)
     for e in events[:1] + events[-1:]:
         rep.sample({k: (v if k not in ("K", "obs") else "<exact doubles>") for k, v in e.items()})
 
@@ -755,8 +809,18 @@ def run(tier, seed, build):
     with contextlib.redirect_stdout(io.StringIO()):      # the package prints progress messages
         import compmech.conecyl                           # noqa: F401
     gc.freeze()
-    sections = [("partition", partition_section), ("geometry", geometry_section), ("loads", loads_section)]
     timer = {}
+    t0 = time.time()
+    with contextlib.redirect_stdout(io.StringIO()):
+        prep = partition_prepare(rep, tier, seed, random.Random(seed * 7 + 11))
+    timer["partition_prepare"] = round(time.time() - t0, 1)
+    if prep is None or prep["crashed"]:
+        # exclude_dofs_matrix kills the interpreter: every object with a stiffness matrix would do the same in-process
+        rep.cov["section_wall_s"] = timer
+        rep.assumptions.append("run stopped after the isolated exclude_dofs_matrix replays: the call crashed the interpreter")
+        return rep.finish()
+    sections = [("partition", lambda *a: partition_section(*a, prep=prep)), ("geometry", geometry_section),
+                ("loads", loads_section)]
 
     def one(k):
         name, fn = sections[k]
